@@ -322,6 +322,10 @@ func (c *Channel) proposeNewSession(sid [32]byte, newS *Session) (ret *Session) 
 		// both sessions answer an InitHello of the peer: the peer has moved on to the newer one.
 		c.log.Debug("replacing prospective session with one for a newer InitHello", zap.Any("old", s), zap.Any("new", newS))
 		ret = newS
+	} else if s != nil && !s.IsInit() && !newS.IsInit() && newS.InitHelloTime().Before(s.InitHelloTime()) {
+		// a late copy of an InitHello which the peer has already given up for the one we are answering.
+		c.log.Debug("not replacing prospective session with one for an older InitHello")
+		return s
 	} else if s != nil && bytes.Compare(c.sessions[2].ID[:], sid[:]) < 0 {
 		c.log.Debug("not replacing prospective session")
 		return s
